@@ -229,6 +229,12 @@ def replay_mode(chk, e, rng):
         want = f0 * (e["factor"] / e["scale"])  # dyadic: exact in both precisions
         chk.traces += 1
         chk.count(("mode", tuple(m), n, ty, real_t.__name__))
+        ring = np.ones(shape, dtype=bool)
+        ring[tuple(slice(1, -1) for _ in shape)] = False
+        if not np.array_equal(g[ring], f0.astype(real_t)[ring]):
+            chk.violation({"kind": "filter_ring", "type": ty, "order": n},
+                          f"{ty} filter order {n} ({real_t.__name__}): boundary-ring cells of the filtered field changed (the flux buffer's ring held "
+                          f"garbage before the call; it must be cleared by the filter itself)")
         if not np.array_equal(g[sl].astype(float), want[sl]):
             d = np.abs(g[sl].astype(float) - want[sl])
             chk.violation({"kind": "filter_mode", "type": ty, "order": n},
